@@ -269,7 +269,7 @@ META = {
     },
     "C14": {
         "technique": "schedule-owning injection of write bursts into every gap of the archive loop (complete gap x burst matrix on generated states), concurrent writers, and rate-limit schedules judged by interval arithmetic",
-        "text": "For generated server states the archive is requested and a write burst (new device + first report, registration + first device, rotation, conflicting authorization, report burst) is executed from the verif point before each file is added; the zip is parsed by the harness and checked for record-aligned prefixes, dependency closure under the archived keys, absence of private key material and an exact server.pubkey. Archives taken under truly concurrent writers are checked without the alignment clause. Request bursts are judged against the configured limit with the C19 interval oracle. A further generated check (TestC14LongHistory) builds long histories - statistics, authorization and report files beyond one megabyte - and applies the same oracle to an archive taken while a burst lands in a drawn gap. Exploration only.",
+        "text": "For generated server states the archive is requested and a write burst (new device + first report, registration + first device, rotation, conflicting authorization, report burst) is executed from the verif point before each file is added; the zip is parsed by the harness and checked for record-aligned prefixes, dependency closure under the archived keys, absence of private key material and an exact server.pubkey. Archives taken under truly concurrent writers are checked without the alignment clause. Request bursts are judged against the configured limit with the C19 interval oracle. A further generated check (TestC14LongHistory) builds long histories - statistics and report files beyond one megabyte - and applies the same oracle to an archive taken while a burst lands in a drawn gap. Exploration only.",
         "note": "Whether a read(2) racing an O_APPEND write(2) can observe part of it is a kernel property and is not judged.",
     },
     "C13": {
